@@ -19,7 +19,8 @@ RULE = ("Hypothesis draws a data set (5-9 volumes, 1-4 q-points, 1-3 atoms, powe
         "PD static tensor in the drawn crystal system with all its non-zero components, optional lattice block) and a "
         "configuration built field by field (interpolator x admissible order, T_MIN, DT 0.5-500, NT 1-8, NTV 16-41, volume_ratio, "
         "BM order 3-5, DT_SAMPLE/DELTA_P_SAMPLE present or absent, pressures placed inside the range reported by the qha package, with a "
-        "10 % margin or with the lowest / highest one inside the first / last cell of the P(T,V) table; moduli on the (T,V) and (T,P) grids); "
+        "10 % margin or with the lowest / highest one inside the first / last cell of the P(T,V) table; moduli on the (T,V) and (T,P) grids; volume_ratio 1.05-1.3 or exactly 1; one case in eight with a shear constant of "
+        "1e-7..1e-4 of the stiff ones at one grid point, see C07); "
         "non-trivial = temperature rows below 5 K, or a non-default interpolator, or a shear key beyond 44/55/66; distinct by the drawn spec; "
         "(extreme) duck calculators whose spectrum holds 1-3 single entries of 1e-45..1e-17 or 1e6..1e30 cm^-1 (what a high-order "
         "extrapolation returns outside the sampled volumes): non-shear phonon parts finite")
@@ -38,6 +39,16 @@ def cases(draw):
     s["soft_mode"] = draw(st.sampled_from([False, False, False, True]))
     # lowest / highest requested pressure inside the first / last cell of the computed P(T,V) table (still inside the range)
     s["edge"] = draw(st.sampled_from([None, None, "low", "high"]))
+    if draw(st.integers(0, 7)) == 0:
+        # positive definite but soft: one shear constant of 1e-7..1e-4 of the stiff ones at one grid point (see C07.soften)
+        s["soften"] = "shear"
+        s["soften_at"] = [draw(st.floats(0.0, 1.0)), draw(st.floats(0.0, 1.0))]
+        s["soften_eps"] = draw(st.sampled_from([1e-7, 1e-6, 3e-5, 1e-4]))
+        s["soften_key"] = draw(st.sampled_from([4, 5, 6]))
+        s["system"] = draw(st.sampled_from(["orthorhombic", "hexagonal", "cubic"]))
+        s["apply_system"] = False
+    if draw(st.integers(0, 5)) == 0:
+        s["ratio"] = 1.0            # the schema minimum of volume_ratio: the dense grid ends exactly at the sampled volumes
     s["low_t"] = draw(st.booleans())
     if s["low_t"]:
         s["tmin"] = 0.0
@@ -50,7 +61,8 @@ def classes_of(s):
             "dt_sample-" + ("explicit" if s["explicit_dt_sample"] else "default"),
             "dp_sample-" + ("explicit" if s["explicit_dp_sample"] else "default"),
             "bm-order-%d" % s["bm_order"], "lowT" if s["low_t"] else "T-generic", "soft-mode" if s.get("soft_mode") else "no-soft-mode",
-            "pressure-edge-%s" % s.get("edge")]
+            "pressure-edge-%s" % s.get("edge"), "volume_ratio=1" if s["ratio"] == 1.0 else "volume_ratio>1",
+            "softened-shear" if s.get("soften") else "not-softened"]
 
 
 def tags_of(s, qs):
@@ -77,6 +89,9 @@ def build(s):
         qs.pop("DT_SAMPLE")
     if not s["explicit_dp_sample"]:
         qs.pop("DELTA_P_SAMPLE")
+    if s.get("soften") and s["interpolator"] != "hermite":
+        from .c07 import soften
+        soften(s, ds, qs)
     return ds, qs
 
 
